@@ -126,7 +126,7 @@ PROPS = {
                             faults=("cancel",), maxfaults=1, must_cover=("Cancel", "ScriptStep", "JoinReturn", "AwaitReturn"))],
                "thorough": [mc("Fail-own-2x3", maxops=3, ops=("send", "call", "await", "join", "stopped", "ping"), scripts="ScriptsFail", cfgs="CfgsFailOwn", kinds="InitKindsOwn", faults=("cancel",), maxfaults=1),
                             mc("Fail-3x2", clients=C3, ops=("send", "call", "await", "halt", "upgrade"), scripts="ScriptsFail", cfgs="CfgsFail", kinds="InitKindsAW", faults=("cancel",), maxfaults=2)]},
-        "families": [("fail", 300, 3000), ("tree", 80, 800), ("timers", 80, 800)],
+        "families": [("fail", 300, 3000), ("tree", 80, 800), ("timers", 80, 800), ("registry", 80, 800)],
         "relevant": r'"how":"panic"|"ev":"cancel"|"e":"err"|h_abandon', "relevant_min": 1,
     },
     "C07": {
@@ -213,7 +213,7 @@ PROPS = {
         "mc": {"quick": [mc("Query-2x3", maxops=3, ops=QOPS, scripts="ScriptsPlain", cfgs="CfgsUnb", must_cover=("Query", "AwaitReturn", "StopTaken"))],
                "thorough": [mc("Query-3x3", maxops=3, clients=C3, ops=QOPS, scripts="ScriptsPlain", cfgs="CfgsUnb", kinds="InitKindsAW")]},
         "dev_demo": [("D1", mc("Query-2x3", maxops=3, ops=QOPS, scripts="ScriptsPlain", cfgs="CfgsUnb"))],
-        "families": [("life", 200, 2000), ("registry", 150, 1500)],
+        "families": [("life", 200, 2000), ("registry", 150, 1500), ("fail", 100, 1000)],
         "relevant": r'"op":"(stopped|running|try_from_registry|already_running)"', "relevant_min": 1,
     },
     "C15": {
